@@ -159,8 +159,10 @@ def main_cli():
                     lst_file = "listing.lst"
 
                 try:
-                    with open_device(lst_file, "w") as f:
-                        f.write(comp.generate_listing())
+                    # File names and symbols need not fit the locale's encoding (a path
+                    # from the command line may even carry undecodable bytes)
+                    with open_device(lst_file, "wb") as f:
+                        f.write(comp.generate_listing().encode("utf-8", "surrogateescape"))
                 except IOError as ex:
                     print(f"Could not write to '{lst_file}':\n{ex}", file=sys.stderr)
                     sys.exit(1)
